@@ -116,6 +116,12 @@ claim("C40", "e5_hydrosim",
   E5NOTE + " Paxos is NOT covered: the shipped paxos examples use wall-clock tokio intervals that the repository simulator cannot run, so there is no seam (stated limitation; the property is claimed for its Raft half only).",
   "DESIGN.md §5 C40, §13")
 
+claim("C42", "e7_seedsim",
+  "deterministic simulation of the compiler's only nondeterminism source: OS randomness feeding std RandomState hash seeds is put behind an LD_PRELOAD getrandom seam keyed by VERIF_HASH_SEED (and ASLR on/off); seeded generator of DFIR programs (and a corpus of Hydro flows) compiled through the real dfir_lang / hydro_lang pipelines in child processes under several hash seeds and on fresh threads; output bytes (partitioned graph JSON, surface syntax, mermaid, generated code) must be identical",
+  "Seeded exploration over generated programs x hash seeds x ASLR settings; a control child proves the seam works on every run (HashSet order differs across seeds, equal for equal seeds); differing outputs are minimised by shrinking the program text and replayed in a fresh process.",
+  "Trusted: the shim (getrandom via dlsym), the program generator (well-typed templates that compile through dfir_lang without rustc). Covers hash-seed and address-layout dependence only; other nondeterminism sources (environment, file system order, time) are out of scope.",
+  "DESIGN.md §5 C42, §13")
+
 NOT_BUILT = {}  # pid -> reason while its check is not built yet
 
 ALL = ["C%02d" % i for i in range(1, 43)]
@@ -157,6 +163,7 @@ def main():
       "e2_wakesim": "thread-interleaving simulator (shuttle) for the dataflow runner's wake-up protocol, with guarded yield hooks in dfir_rs",
       "e4_hydroprod": "production-compiled (embedded back end) Hydro flows under simulated tick partitions, location schedules and a simulated network",
       "e5_hydrosim": "the repository's own deterministic simulator driven by my seeded decision stream: hook-level DynDriver and end-to-end fuzz_repro(bytes) over compiled dylibs",
+      "e7_seedsim": "process-level simulator of hash-seed / address-space nondeterminism around the DFIR and Hydro compile pipelines (LD_PRELOAD getrandom seam)",
       "e1_sink": "poll-level deterministic simulator for sinktools adaptors and MergeSource",
       "e1_push": "poll-level deterministic simulator for dfir_pipes push combinators",
       "e1_pollsim": "poll-level deterministic simulator: scripted Pending/Ready/wake schedules around real dfir_pipes/sinktools/MergeSource/unsync-mpsc code",
